@@ -47,7 +47,7 @@ func init() {
 				if w.Journaling() {
 					w.JournalCase(func() string { return hex.EncodeToString(b) })
 				}
-				hist.begin(w, b, unit.Name)
+				b = hist.begin(w, b, unit.Name)
 				c02Check(w, st, b, unit.Name)
 				hist.end(histOK)
 				return !w.Expired()
